@@ -206,6 +206,23 @@ namespace c15 {
             for ( long x : ts ) std::printf( " %ld", x );
             std::printf( "\n" );
         }
+        {   // per worker: the (1-based) indices of its scheduled steps that are CAS / exchange accesses ("<tid> <kind> o<id> ..."),
+            // used by the implementation-guided window schedules of checks/C15.py (lib/conc_windows2.py, impl_profiler)
+            std::vector<long> idx( c.threads.size(), 0 );
+            std::vector<std::string> tw( c.threads.size());
+            for ( auto const& l : vs::S().log ) {
+                if ( l.find( " ev " ) != std::string::npos ) continue;
+                int t = std::atoi( l.c_str());
+                if ( t < 0 || (size_t) t >= idx.size()) continue;
+                ++idx[t];
+                size_t sp = l.find( ' ' );
+                if ( sp != std::string::npos && ( l.compare( sp + 1, 4, "cas " ) == 0 || l.compare( sp + 1, 5, "xchg " ) == 0 ))
+                    tw[t] += ( tw[t].empty() ? "" : "," ) + std::to_string( idx[t] );
+            }
+            std::printf( "monitor twrites" );
+            for ( size_t t = 0; t < tw.size(); ++t ) std::printf( " %zu:%s", t, tw[t].c_str());
+            std::printf( "\n" );
+        }
         // quiescent point: structure first (before the sweep's own operations), then the sweep
         monitor_out mo;
         a->monitor( mo );
